@@ -127,6 +127,8 @@ var gcsLargeCfgs = []gcsCfg{
 	{16, 65536, 65536, "2^P"},         // N*M = 2^32
 	{20, 1 << 20, 50000, "2^P"},
 	{28, 1 << 32, 30000, "2^(P+4)"},
+	{19, gcsDefaultM, 65539, "784931"}, // beyond 2^16 members, N not a multiple of 4
+	{20, 1 << 20, 70001, "2^P"},
 }
 
 func gcsLargeCfg(r *vf.Rand, i int) gcsCfg {
@@ -727,6 +729,18 @@ func c13worldChecks(c *vf.Ctx, w *gcsWorld) {
 	test := dm
 	if len(dm) > 400 {
 		test = []int{w.first, w.last}
+		// the first and last members in INPUT order (a builder that splits
+		// its input into chunks loses or duplicates items at the seams)
+		for j := 0; j < 8 && j < len(w.members); j++ {
+			test = append(test, w.members[j], w.members[len(w.members)-1-j])
+		}
+		for _, at := range []int{len(w.members) / 4, len(w.members) / 2, 3 * len(w.members) / 4} {
+			for j := -2; j <= 2; j++ {
+				if at+j >= 0 && at+j < len(w.members) {
+					test = append(test, w.members[at+j])
+				}
+			}
+		}
 		cnt := map[int]int{}
 		for _, i := range w.members {
 			cnt[i]++
@@ -832,6 +846,17 @@ func c13worldChecks(c *vf.Ctx, w *gcsWorld) {
 			pos := []int{0, sz / 2, sz - 1}[r.Intn(3)]
 			q[pos] = m
 			x.checkQ("one-member-among-nonmembers", q)
+		}
+	}
+	// threshold-and-remainder shapes: very large query sets (beyond 2^16 items,
+	// length not a multiple of 8) whose only matching item is the very last one
+	if N >= 5000 && len(nonm) > nHost+8 {
+		pb := nonm[nHost:]
+		for _, sz := range []int{65536 + 1 + r.Intn(7), 100003 + r.Intn(5)} {
+			q := pad(pb[:min(len(pb), 600)], sz)
+			q[sz-1] = dm[r.Intn(len(dm))]
+			x.checkQ("huge-set-one-member-last", q)
+			x.c.Inc("querysets_beyond_65536_items")
 		}
 	}
 	// duplicates of a single hostile item, long enough for the hash strategy
